@@ -158,6 +158,10 @@ class LawBook:
             return
         a, b = t.arg(0), t.arg(1)
         c = self.ctx
+        al = getattr(self, "aliases", {}).get(a.get_id())
+        if al is not None:
+            hypf, p = al
+            c.add_fact(z3.Implies(hypf, t == self.concat(flatten(p) + [b])))
         c.add_fact(s_len(t) == self.length(a) + self.length(b))
         self.length(t)
         # identity: concatenating with the empty string changes nothing
@@ -257,6 +261,14 @@ class LawBook:
             parts = self._as_join(s, sep)
             if parts is not None:
                 self._split_join(s, sep, sep, parts, s)
+                if len(parts) >= 2:
+                    # S-law split(x ++ d ++ y) = split(x) ++ split(y): whatever the first group is (it may
+                    # contain the separator), the trailing separator-free groups are the last fields
+                    g0, rest = parts[0], parts[1:]
+                    n0 = split_len(g0, sep)
+                    hyp = [z3.Not(self.contains(p, sep)) for p in rest]
+                    concl = [n == n0 + len(rest), n0 >= 1] + [split_get(s, sep, n0 + j) == p for j, p in enumerate(rest)]
+                    c.add_fact(z3.Implies(z3.And(hyp), z3.And(concl)))
 
         def get(i):
             e = split_get(s, sep, i)
@@ -300,6 +312,19 @@ class LawBook:
             self.joins.append((sep, list(parts), t))
             for s, ssep in self.splits:
                 self._split_join(s, ssep, sep, parts, t)
+                if ssep.eq(sep):
+                    # S-law join(d, split(s, d)) = s, for the whole list and for the list without its head
+                    for k in (0, 1):
+                        tail = parts[k:]
+                        if not tail:
+                            continue
+                        tseq = [tail[0]]
+                        for p in tail[1:]:
+                            tseq.append(sep)
+                            tseq.append(p)
+                        tt = self.concat(tseq)
+                        hyp = [split_len(s, sep) == len(tail)] + [tail[i] == split_get(s, sep, z3.IntVal(i)) for i in range(len(tail))]
+                        self.ctx.add_fact(z3.Implies(z3.And(hyp), tt == s))
         return t
 
     def _split_join(self, s, sep, jsep, parts, jt):
@@ -310,7 +335,14 @@ class LawBook:
         nocontain = [z3.Not(self.contains(p, sep)) for p in parts]
         concl = [split_len(s, sep) == len(parts)] + [split_get(s, sep, i) == p for i, p in enumerate(parts)]
         hyp = nocontain if s.eq(jt) else [s == jt] + nocontain
-        self.ctx.add_fact(z3.Implies(z3.And(hyp) if hyp else z3.BoolVal(True), z3.And(concl)))
+        hypf = z3.And(hyp) if hyp else z3.BoolVal(True)
+        self.ctx.add_fact(z3.Implies(hypf, z3.And(concl)))
+        # a field that is itself a concatenation: remember it, so that a later concatenation starting with
+        # the field gets the associativity instance  (field ++ rest) = (atoms of the field ++ rest)
+        self.aliases = getattr(self, "aliases", {})
+        for i, p in enumerate(parts):
+            if len(flatten(p)) > 1:
+                self.aliases[split_get(s, sep, z3.IntVal(i)).get_id()] = (hypf, p)
 
     # ---- int / str
     def str_of_int(self, n):
